@@ -9,8 +9,15 @@ from layers.kern import layer_flux_euler2d, layer_bcker_euler2d
 from layers.fvm1d import layer_rhs1d
 
 MODULE = 'Flowdyn.Props.C15'
-THEOREMS = []
-PARTIAL = {}
+THEOREMS = ['Flowdyn.C15.' + t for t in ('balance2d', 'periodic_x_fluxes', 'periodic_y_fluxes', 'periodic2d', 'rhs_shift_x', 'rhs_shift_y',
+            'rhs_transpose', 'yflux_const_of_yindep', 'rhs_rows_eq_1d')] + \
+           ['Flowdyn.C02.' + t for t in ('e2Hlle_transpose', 'e2Centered_transpose', 'e2Hlle_reduces_1d', 'e2Centered_reduces_1d',
+            'e2Hlle_mirror_x', 'e2Hlle_mirror_y', 'e2Centered_mirror_x', 'e2Centered_mirror_y')] + \
+           ['Flowdyn.C16.sym2d_def', 'Flowdyn.C20.bc_tables_nodup', 'Flowdyn.C20.left_is_xface0', 'Flowdyn.C20.top_is_yfaceN']
+AUDIT_IMPORTS = ['Flowdyn.Props.C02', 'Flowdyn.Props.C16', 'Flowdyn.Props.C20']
+PARTIAL = {"reflections": "reflection of the full 2D operator in x and in y (with boundary tags exchanged) is explored by the sweep over all tags; only the kernel mirror laws (C02) are theorems",
+           "walls in the reduction": "row-by-row reduction is proved for periodic top/bottom; slip-wall top/bottom and the vanishing transverse-momentum residual are checked by the sweep",
+           "inlet/outlet 2D mirror laws": "sweep only"}
 LEVEL_NOTE = "structured 2D model with flattening maps validated by L-rhs2d / L-mesh2d"
 
 
